@@ -381,12 +381,17 @@ m("C13", "proof",
   "times), the late tile, the next expiry: complete, file byte-identical, exactly one successful "
   "Transaction-Finished, idle, no Check limit fault; C13_never_arrives_limit — the first limit-1 expiries only "
   "count, the limit-th declares Check limit reached, cancelled and reported Data incomplete, idle; with closure "
-  "exactly one Finished PDU carrying the reported values is queued in the completing call. Concrete "
-  "instances show the hypotheses are satisfiable.",
+  "exactly one Finished PDU carrying the reported values is queued in the completing call. ANY ARRIVAL PATTERN "
+  "(C13_any_pattern_completes): after the Metadata any history of tiles (any order, losses, duplicates), the "
+  "EOF overtaking the rest, any number of idle expiries below the limit, then the remaining tiles in any order "
+  "(any again) while the timer runs, the next expiry completes — from whole-call lemmas for any tile in either "
+  "step (C13_tile_any, C13_late_tile_any), the EOF (C13_eof_waits_any) and retries (C13_expiry_retry_any, "
+  "C13_expiries_below_limit_any). Concrete instances show the hypotheses are satisfiable.",
   "Lean 4 theorems (one-step contracts, whole calls, induction over expiry times, whole-run composition) + "
   "scenario enumeration", "§6 C13",
-  ["whole-run theorems: one late File Data PDU, the hole's checksum differs from the announced one; "
-   "several late PDUs and the sender side are one-step contracts + scenario exploration"])
+  ["whole-run theorems assume the stored content's checksum differs from the announced one while data is "
+   "missing (no collision); late PDUs arriving in several groups separated by expiries, and the sender side, "
+   "are one-step contracts + scenario exploration"])
 m("C14", "proof",
   "destination, source and end-to-end sessions with random fault-handler tables (cancel/ignore/abandon/"
   "suspend for each declarable condition), sethandler ops, faulty links, rejected writes, cancel requests",
